@@ -24,7 +24,13 @@ fn tys_str(s: &Shape) -> String {
 }
 
 pub fn struct_line(s: &Shape) -> String {
-    format!("struct {} {} {}", s.sid, s.cst.as_ref().map(|c| hex(c)).unwrap_or_else(|| "none".into()), tys_str(s))
+    format!(
+        "struct {} {} {}{}",
+        s.sid,
+        s.cst.as_ref().map(|c| hex(c)).unwrap_or_else(|| "none".into()),
+        tys_str(s),
+        if s.placeholder { "" } else { " noslot" }
+    )
 }
 
 pub fn vals_line(v: &[Val]) -> String {
@@ -592,27 +598,31 @@ pub fn generate(rec: &mut Recorder, args: &Args) {
     }
 }
 
-/// Minimal cases of known finding D10 (15 user seeds: `seeds()` has 16 slots, `find` appends a 17th).
-pub fn print_d10_corpus() {
-    let ex = Exec::new();
-    let shape = ex.shapes().iter().find(|s| s.sid == 24).unwrap().clone();
-    let vals: Vec<Val> = (0..15).map(|i| Val::U(1, i)).collect();
-    let p = prog_bytes(0);
-    let e = expected_seeds(&shape, &vals);
-    let (key, bump) = ref_find(&e, &p).expect("canonical address of 15 seeds exists");
-    println!("# C10 known finding D10 (class seed_struct_slots_exceed_16): a derived seed struct with 15 fields.");
-    println!("# The canonical PDA of its 15 seeds exists (15 + bump = 16 slots), but seeds() has a 16th empty slot and");
-    println!("# find_program_address appends a 17th: Seeds(..) validation and the client find helper panic, the client");
-    println!("# create helper fails with MaxSeedLengthExceeded. Validation with the explicit bump works (slot replaced).");
-    println!("case 0 corpus-d10-validate");
-    println!("prog p0 {}", hex(&[9u8; 32]));
-    println!("{}", struct_line(&shape));
-    println!("{}", vals_line(&vals));
-    println!("key {}", hex(&key));
-    println!("vseeds");
-    println!("case 1 corpus-d10-client");
-    println!("{}", struct_line(&shape));
-    println!("{}", vals_line(&vals));
-    println!("cfind p0");
-    println!("ccreate p0 {bump}");
+/// Regression cases for the repaired defect D10 (repo commit 801ca3a): structs with 15 user seeds
+/// must derive on every path. Written to `<out>/ops.txt` (copied into corpus/C10 with a header).
+pub fn write_d10_corpus(args: &Args) {
+    let mut rec = Recorder::new(crate::RULE);
+    {
+        let ex = Exec::new();
+        let shapes = ex.shapes().to_vec();
+        let mut g = Gen { rec: &mut rec, ex, rng: Rng::new(1), shapes: shapes.clone(), n: 0 };
+        let shape = shapes.iter().find(|s| s.sid == 24).unwrap().clone();
+        let vals: Vec<Val> = (0..15).map(|i| Val::U(1, i)).collect();
+        for (mode, ctx) in [(Mode::Fixed(0), [9u8; 32]), (Mode::Cur, prog_bytes(0))] {
+            g.begin("corpus-d10-fixed", "s24");
+            let m = match mode {
+                Mode::Cur => "cur".to_string(),
+                Mode::Fixed(k) => format!("p{k}"),
+            };
+            g.emit(&format!("prog {m} {}", hex(&ctx)));
+            g.emit(&struct_line(&shape));
+            g.emit(&vals_line(&vals));
+            let p = Gen::seed_prog(mode, ctx);
+            let (key, bump) = ref_find(&expected_seeds(&shape, &vals), &p).expect("canonical address of 15 seeds exists");
+            g.emit(&format!("key {}", hex(&key)));
+            g.emit("vseeds");
+            g.post_ok_ops(mode, 0, bump);
+        }
+    }
+    rec.finish(args);
 }
